@@ -91,6 +91,8 @@ struct Loop {
     /// the second and third procedures are called odd? and even?: names that denote builtins when the first
     /// procedure is compiled and closures when it runs
     builtin_names: bool,
+    /// every procedure body begins with an internal definition (the loop call is still the last expression)
+    internal_define: bool,
 }
 
 fn third(fa: Arity, ga: Arity) -> Arity {
@@ -112,7 +114,8 @@ fn definitions(l: &Loop, tail: bool) -> (String, String) {
         let t = call(l.call, &names[next], ars[next]);
         let inner = chain_text(&l.chain, &t);
         let body = if tail { inner } else { format!("(+ 0 {})", inner) };
-        defs.push_str(&format!("(define ({} {}) (if (= n 0) acc {})) ", names[i], params(ars[i]), body));
+        let idef = if l.internal_define { "(define zz (+ n 1)) " } else { "" };
+        defs.push_str(&format!("(define ({} {}) {}(if (= n 0) acc {})) ", names[i], params(ars[i]), idef, body));
     }
     let mut start = vec!["NN".to_string(), "0".to_string()];
     for _ in 0..ars[0].extra {
@@ -291,10 +294,14 @@ pub fn run(ctx: &Ctx) -> i32 {
                         } else {
                             None
                         };
-                        loops.push((Loop { chain: chain.clone(), call, shape, fa, ga, builtin_names: false }, big));
+                        loops.push((Loop { chain: chain.clone(), call, shape, fa, ga, builtin_names: false, internal_define: false }, big));
+                        // the same loop with an internal definition at the head of every body (direct calls, chains <= 1, 9 pairs)
+                        if call == 0 && depth <= 1 && nine_pairs.iter().any(|(a, b)| a.extra == fa.extra && a.rest == fa.rest && b.extra == ga.extra && b.rest == ga.rest) {
+                            loops.push((Loop { chain: chain.clone(), call, shape, fa, ga, builtin_names: false, internal_define: true }, None));
+                        }
                         // the same cycle under names that denote builtins at compile time (direct calls, chains <= 1, 9 pairs)
                         if shape >= 2 && call == 0 && depth <= 1 && nine_pairs.iter().any(|(a, b)| a.extra == fa.extra && a.rest == fa.rest && b.extra == ga.extra && b.rest == ga.rest) {
-                            loops.push((Loop { chain: chain.clone(), call, shape, fa, ga, builtin_names: true }, None));
+                            loops.push((Loop { chain: chain.clone(), call, shape, fa, ga, builtin_names: true, internal_define: false }, None));
                         }
                     }
                 }
@@ -337,7 +344,7 @@ pub fn run(ctx: &Ctx) -> i32 {
         return 3;
     }
     rep.rule = format!(
-        "Loops (define (f n acc p.. [. r]) (if (= n 0) acc CHAIN[call])) over: every chain of <= {} tail contexts with all 10x10 caller/callee arity pairs (0..4 extra parameters x fixed/rest) and every chain of <= {} with 9 pairs; {} tail contexts (if both arms, cond clause / else / =>, case clause / else, and, or, when, unless, let, let*, letrec, named let, begin, call/cc receiver); the call itself direct, through apply (some, all or none of the arguments in the final list), through eval, through a local alias of the callee, or with the callee taken out of a data structure (quick tier: apply/eval only up to the full-arity depth); self, two- and three-procedure recursion with different arities around the cycle (also with the later procedures named odd? / even?, builtins when the first one is compiled) = {} loops. Oracles: value = n for n = 10 and 1000 and equal to the non-tail twin (+ 0 CHAIN[call]); stack high-water mark (hook) at n = 1000 within 64 slots of n = 10{}; as anti-vacuity the twin's high-water mark (n = 250) must grow by >= 225 slots, and on a sub-grid the reference machine confirms constant continuation depth (the generated call really is a tail call). Non-trivial = a loop that passed all oracles.",
+        "Loops (define (f n acc p.. [. r]) (if (= n 0) acc CHAIN[call])) over: every chain of <= {} tail contexts with all 10x10 caller/callee arity pairs (0..4 extra parameters x fixed/rest) and every chain of <= {} with 9 pairs; {} tail contexts (if both arms, cond clause / else / =>, case clause / else, and, or, when, unless, let, let*, letrec, named let, begin, call/cc receiver); the call itself direct, through apply (some, all or none of the arguments in the final list), through eval, through a local alias of the callee, or with the callee taken out of a data structure (quick tier: apply/eval only up to the full-arity depth); self, two- and three-procedure recursion with different arities around the cycle (also with the later procedures named odd? / even?, builtins when the first one is compiled, and with an internal definition at the head of every body) = {} loops. Oracles: value = n for n = 10 and 1000 and equal to the non-tail twin (+ 0 CHAIN[call]); stack high-water mark (hook) at n = 1000 within 64 slots of n = 10{}; as anti-vacuity the twin's high-water mark (n = 250) must grow by >= 225 slots, and on a sub-grid the reference machine confirms constant continuation depth (the generated call really is a tail call). Non-trivial = a loop that passed all oracles.",
         max_full, max_nine, WRAPPERS.len(), n, if ctx.tier == Tier::Thorough { "; at n = 10^5 within 64 slots of n = 1000 for chains of depth <= 1 on the 9 pairs" } else { "" }
     );
     rep.extra("loops", json!(n));
